@@ -21,30 +21,32 @@ Lemma nrel_trans a b c : nrel a b -> nrel b c -> nrel a c.
 Proof. intros (N1 & T1 & C1) (N2 & T2 & C2). split; [congruence|]. split; [congruence|]. auto. Qed.
 
 Definition Fr (w0 w : world) : Prop :=
+  w_next w0 <= w_next w /\
   forall j x, w_nodes w j = Some x -> exists x0, w_nodes w0 j = Some x0 /\ nrel x0 x.
 
 Lemma Fr_refl w : Fr w w.
-Proof. intros j x H. exists x. split; [exact H|apply nrel_refl]. Qed.
+Proof. split; [lia|]. intros j x H. exists x. split; [exact H|apply nrel_refl]. Qed.
 Lemma Fr_trans a b c : Fr a b -> Fr b c -> Fr a c.
 Proof.
-  intros H1 H2 j x Hx. destruct (H2 _ _ Hx) as (y & Hy & R2). destruct (H1 _ _ Hy) as (z & Hz & R1).
+  intros (N1 & H1) (N2 & H2). split; [lia|]. intros j x Hx.
+  destruct (H2 _ _ Hx) as (y & Hy & R2). destruct (H1 _ _ Hy) as (z & Hz & R1).
   exists z. split; [exact Hz|eapply nrel_trans; eauto].
 Qed.
 
 Lemma Fr_typed T w0 w : Fr w0 w -> TypedT T w0 -> TypedT T w.
 Proof.
-  intros F HT i n c cn Hn Hin Hc.
+  intros (_ & F) HT i n c cn Hn Hin Hc.
   destruct (F _ _ Hn) as (n0 & Hn0 & (_ & Tn & Cn)). destruct (F _ _ Hc) as (cn0 & Hc0 & (Nc & Tc & _)).
   destruct (HT i n0 c cn0 Hn0 (Cn _ Hin) Hc0) as (u & et & ixs & Hu & Hf & Hs).
   exists u, et, ixs. rewrite Tn, Nc, Tc. auto.
 Qed.
 
-Lemma Fr_nodes_eq w0 w w' : (forall x, w_nodes w' x = w_nodes w x) -> Fr w0 w -> Fr w0 w'.
-Proof. intros E F j x Hx. rewrite E in Hx. exact (F _ _ Hx). Qed.
+Lemma Fr_nodes_eq w0 w w' : (forall x, w_nodes w' x = w_nodes w x) -> w_next w' = w_next w -> Fr w0 w -> Fr w0 w'.
+Proof. intros E En (Nx & F). split; [lia|]. intros j x Hx. rewrite E in Hx. exact (F _ _ Hx). Qed.
 
 Lemma Fr_wset w0 w i x : Fr w0 w -> (exists n0, w_nodes w0 i = Some n0 /\ nrel n0 x) -> Fr w0 (wset w i x).
 Proof.
-  intros F Hx j y Hy. destruct (N.eq_dec j i) as [->|Hne].
+  intros (Nx & F) Hx. split; [exact Nx|]. intros j y Hy. destruct (N.eq_dec j i) as [->|Hne].
   - rewrite nodes_wset_eq in Hy. injection Hy as <-. exact Hx.
   - rewrite nodes_wset_neq in Hy by exact Hne. exact (F _ _ Hy).
 Qed.
@@ -55,7 +57,7 @@ Definition frp {A} (w0 : world) (m : W A) : Prop := forall w r w', Fr w0 w -> m 
 Lemma frp_ro {A} w0 (m : W A) : ro m -> frp w0 m.
 Proof. intros R w r w' F H. apply R in H. subst. exact F. Qed.
 Lemma frp_nfp {A} w0 (m : W A) : nfp m -> frp w0 m.
-Proof. intros Hn w r w' F H. destruct (Hn _ _ _ H) as (E & _). exact (Fr_nodes_eq _ _ _ E F). Qed.
+Proof. intros Hn w r w' F H. destruct (Hn _ _ _ H) as (E & En & _). exact (Fr_nodes_eq _ _ _ E En F). Qed.
 Lemma frp_bind {A B} w0 (m : W A) (k : A -> W B) : frp w0 m -> (forall a, frp w0 (k a)) -> frp w0 (wbind m k).
 Proof.
   intros Hm Hk w r w' F H. apply wbind_inv in H as [(a & w1 & H1 & H2) | (e & H1 & _)].
@@ -74,7 +76,7 @@ Lemma frp_bind_get {B} w0 i (k : node -> W B) :
   (forall n, known w0 i n -> frp w0 (k n)) -> frp w0 (wbind (get_node i) k).
 Proof.
   intros Hk w r w' F H. apply wbind_inv in H as [(n & w1 & H1 & H2) | (e & H1 & _)].
-  - apply get_node_inv in H1 as (n' & Hn & [= <-] & ->). exact (Hk n (F _ _ Hn) _ _ _ F H2).
+  - apply get_node_inv in H1 as (n' & Hn & [= <-] & ->). exact (Hk n (proj2 F _ _ Hn) _ _ _ F H2).
   - apply get_node_inv in H1 as (n' & _ & [=] & _).
 Qed.
 
@@ -84,7 +86,7 @@ Proof. intros Hx w r w' F H. apply set_node_wset in H as (_ & ->). exact (Fr_wse
 Lemma frp_modify_node w0 i f : (forall n, nrel n (f n)) -> frp w0 (modify_node i f).
 Proof.
   intros Hf w r w' F H. apply modify_node_wset in H as (n & Hn & _ & ->).
-  apply Fr_wset; [exact F|]. destruct (F _ _ Hn) as (n0 & Hn0 & R). exists n0. split; [exact Hn0|].
+  apply Fr_wset; [exact F|]. destruct (proj2 F _ _ Hn) as (n0 & Hn0 & R). exists n0. split; [exact Hn0|].
   eapply nrel_trans; [exact R|apply Hf].
 Qed.
 
@@ -94,9 +96,6 @@ Lemma frp_modify_model w0 m f : frp w0 (modify_model m f).
 Proof. intros w r w' F H. apply modify_model_inv in H as (x & _ & _ & ->). exact F. Qed.
 Lemma frp_set_file w0 f x : frp w0 (set_file f x).
 Proof. intros w r w'. unfold set_file. intros F [= <- <-]. exact F. Qed.
-Lemma frp_wput_nodes w0 (g : world -> world) : (forall w, w_nodes (g w) = w_nodes w) ->
-  frp w0 (fun w => Val (OK tt, g w)).
-Proof. intros E w r w' F [= <- <-]. intros j x Hx. rewrite E in Hx. exact (F _ _ Hx). Qed.
 
 Lemma known_upd w0 i n x : known w0 i n -> nrel n x -> known w0 i x.
 Proof. intros (n0 & H0 & R) Rx. exists n0. split; [exact H0|eapply nrel_trans; eauto]. Qed.
